@@ -931,6 +931,7 @@ fn gen_ext_task(rng: &mut Rng, origin: String) -> ExtTask {
     // output-predicate-in-assumption check is reached in an otherwise accepted task. The choices come from a
     // generator of their own (seeded by the origin), so the stream behind every other choice is unchanged.
     let mut spec = spec;
+    let mut ug = ug;
     if !sloppy {
         let mut h: u64 = 0xcbf29ce484222325;
         for b in origin.bytes() { h = (h ^ b as u64).wrapping_mul(0x100000001b3); }
@@ -986,6 +987,22 @@ fn gen_ext_task(rng: &mut Rng, origin: String) -> ExtTask {
             for f in po.iter_mut() { if mr.chance(2, 3) { f.name = mr.pick(NAMES).to_string(); } }
             if let either::Either::Right(sp) = &mut spec {
                 for f in sp.formulas.iter_mut() { if mr.chance(1, 2) { f.name = mr.pick(NAMES).to_string(); } }
+            }
+        }
+        if mr.chance(1, 10) {
+            // a user-guide assumption over something that is no input predicate of the task: an unknown predicate, a known
+            // name at another arity, a predicate that only the proof outline defines (one in seven is fine)
+            const UG_ASSUMPTIONS: &[&str] = &[
+                "assumption: forall X (in1(X) -> nowhere(X)).",
+                "assumption: forall X (in1(X) -> in1(X, X)).",
+                "assumption: in1.",
+                "assumption: forall X (in1(X) -> out1(X, X)).",
+                "assumption: forall X (in1(X) -> dm(X)).",
+                "assumption: forall X (in1(X) -> aux(X, X)).",
+                "assumption: forall X (in1(X) -> X > 0 or in1(X)).",
+            ];
+            if let Ok(extra) = mr.pick(UG_ASSUMPTIONS).parse::<fol::UserGuide>() {
+                ug.entries.extend(extra.entries);
             }
         }
         if let either::Either::Right(sp) = &mut spec {
